@@ -68,7 +68,9 @@ type result struct {
 	Probe        string    `json:"probe,omitempty"`    // ok | skipped | silent | error:<..> | stale:<..>
 	Liveness     string    `json:"liveness,omitempty"` // when the request stayed silent: did a fresh exchange through the same proxy work?
 	SilentUntil  int64     `json:"silent_until_us,omitempty"`
-	MaxStallUs   int64     `json:"max_sched_delay_us"` // largest scheduling delay of the test process itself while the scenario ran
+	RstUs        []int64   `json:"rst_host_accepts_us,omitempty"` // when accept+RST hosts received (and reset) a connection
+	MaxStallUs   int64     `json:"max_sched_delay_us"`            // largest scheduling delay of the test process itself while the scenario ran
+	StallAtGT    bool      `json:"stalled_across_global_timeout,omitempty"`
 	Infra        string    `json:"infra,omitempty"`
 }
 
@@ -80,6 +82,7 @@ type run struct {
 	arr    []*arrival
 	next   int
 	poison map[[2]int]bool
+	rstAt  []time.Time // connections an accept+RST host received (and reset at once)
 	done   chan struct{}
 }
 
@@ -195,6 +198,13 @@ func (r *run) act(a *arrival, c net.Conn, wmu *sync.Mutex, full []byte, cut int)
 		if garbled {
 			return errors.New("connection carries a partial frame")
 		}
+		r.mu.Lock()
+		if len(b) == len(full) {
+			a.Wrote = "full?" // being written: the client may already have it before finish() records the outcome
+		} else {
+			a.Wrote = "partial?"
+		}
+		r.mu.Unlock()
 		_ = c.SetWriteDeadline(time.Now().Add(5 * time.Second))
 		_, err := c.Write(b)
 		return err
@@ -614,7 +624,12 @@ func runScenario(sc *Scenario) (res *result) {
 				}
 			}
 			if kind == "rst" {
-				atomic.StoreInt32(&u.Refuse, 1)
+				u.OnConn = func(conn int, c net.Conn) {
+					r.mu.Lock()
+					r.rstAt = append(r.rstAt, time.Now())
+					r.mu.Unlock()
+					rstClose(c)
+				}
 			}
 			hosts = append(hosts, u.Addr)
 			cleanup = append(cleanup, u.Close)
@@ -779,6 +794,13 @@ func runScenario(sc *Scenario) (res *result) {
 	cl.mu.Unlock()
 	res.Arrivals = r.snapshot()
 	res.MaxStallUs = maxStall(t0, time.Now()).Microseconds()
+	gtAt := t0.Add(r.globalD())
+	res.StallAtGT = maxStall(gtAt.Add(-3*time.Millisecond), gtAt.Add(3*time.Millisecond)) > 0
+	r.mu.Lock()
+	for _, t := range r.rstAt {
+		res.RstUs = append(res.RstUs, rel(t))
+	}
+	r.mu.Unlock()
 	return res
 }
 
